@@ -724,8 +724,8 @@ fn res(a: i32) -> str ! i32 { return a; }
 
 var c13Replacements = []string{"", ";", ",", "{", "}", "(", ")", "5", "x", "=>", ".", "union", "\"", "fn", "[", "]", ":", "="}
 
-// c13Tokens: ONE token of a well-formed program is deleted or replaced by another token (every token position x 18
-// replacements): the real front end must come back within the step bound (no hang), must not panic, must report at
+// c13Tokens: ONE token of a well-formed program is deleted or replaced by another token (every token position x 11
+// replacements quick / 18 thorough): the real front end must come back within the step bound (no hang), must not panic, must report at
 // least one error whenever it does not accept, and every diagnostic must point inside the file.
 func c13Tokens(shard, shards int) {
 	src := c13Programs[verifrt.Choice("program", len(c13Programs))]
@@ -736,7 +736,11 @@ func c13Tokens(shard, shards int) {
 	if g >= len(toks)-1 {
 		return
 	}
-	rep := c13Replacements[verifrt.Choice("replacement", len(c13Replacements))]
+	nrep := 11 // quick tier: delete ; , { } ( ) 5 x => .
+	if verifrt.Thorough() {
+		nrep = len(c13Replacements)
+	}
+	rep := c13Replacements[verifrt.Choice("replacement", nrep)]
 	mut := src[:toks[g].Start.Index] + " " + rep + " " + src[toks[g].End.Index:]
 	if !verifrt.Symbolic() {
 		println("VERIF-SOURCE-BEGIN\n" + mut + "VERIF-SOURCE-END")
@@ -755,18 +759,24 @@ func c13Tokens(shard, shards int) {
 	}
 }
 
-func HarnessC13Tokens0() { c13Tokens(0, 6) }
-func HarnessC13Tokens1() { c13Tokens(1, 6) }
-func HarnessC13Tokens2() { c13Tokens(2, 6) }
-func HarnessC13Tokens3() { c13Tokens(3, 6) }
-func HarnessC13Tokens4() { c13Tokens(4, 6) }
-func HarnessC13Tokens5() { c13Tokens(5, 6) }
+func HarnessC13Tokens0() { c13Tokens(0, 8) }
+func HarnessC13Tokens1() { c13Tokens(1, 8) }
+func HarnessC13Tokens2() { c13Tokens(2, 8) }
+func HarnessC13Tokens3() { c13Tokens(3, 8) }
+func HarnessC13Tokens4() { c13Tokens(4, 8) }
+func HarnessC13Tokens5() { c13Tokens(5, 8) }
+func HarnessC13Tokens6() { c13Tokens(6, 8) }
+func HarnessC13Tokens7() { c13Tokens(7, 8) }
 
 // HarnessC13Bytes: one byte of a short program is replaced by a SYMBOLIC byte (any ASCII value except a digit): the
 // front end terminates within the bound without panicking.
 func HarnessC13Bytes() {
 	src := "fn t(a: i32) -> i32 { let s: str = \"ab\"; if a > a { return a / a; } return -a; } // c\n"
-	pos := verifrt.Choice("pos", len(src))
+	stride := 2 // quick tier: every second byte position
+	if verifrt.Thorough() {
+		stride = 1
+	}
+	pos := verifrt.Choice("pos", len(src)/stride) * stride
 	c := verifrt.String("c", 1)
 	// ASCII, not a digit (a symbolic digit inside a number literal makes the literal's value symbolic, which the
 	// interpreter's big.Int model cannot print) - digits are covered by the token replacement "5" above
